@@ -358,7 +358,7 @@ async fn run_history(ops: &[Op], ack_deadline_s: u64, uptime_days: u64) -> Resul
             // for redelivery"); anything else is attributed to the kind of step that produced it
             let (have, want) = (stats.outstanding_messages_count + stats.backlog_messages_count, m.leases.len() + m.ghosts.len() + m.pending.len());
             // ... and a message held TWICE (more messages than were ever handed over) can be leased to two consumers at once (C03)
-            let mut tag = if have < want { match (stats_tag, topic.is_none()) { ("C02", _) => "C02+C01+C04", ("C05", _) => "C05+C01+C04", (_, true) => "C11+C01+C04", _ => "C01+C04" } } else if have > want { match stats_tag { "C05" => "C05+C03", "C04" => "C04+C03", "C02" => "C02+C03", "C01" => "C01+C03", _ => "C03" } } else { stats_tag };
+            let mut tag = if have < want { match (stats_tag, topic.is_none()) { ("C02", _) => "C02+C01+C04", ("C05", _) => "C05+C01+C04", (_, true) => "C11+C01+C04", _ => "C01+C04" } } else if have > want { match stats_tag { "C05" => "C05+C03", "C04" => "C04+C03", "C02" => "C02+C03", "C01" => "C01+C03", "C03+C16" => "C03+C04+C16", _ => "C03" } } else { stats_tag };
             if have == want && stats.outstanding_messages_count > m.leases.len() + m.ghosts.len() {
                 // a lease that should have been requeued is still outstanding: late (C04) - or stuck for good, in which case
                 // the message is never redelivered (C01)? Every deadline is at most 600 s away; look again after 700 s.
@@ -492,6 +492,11 @@ fn cmd_names(maxlen: usize) -> i32 {
     let stems = ["projects/", "projects/p", "projects/p/topics/", "projects/p/subscriptions/", "projects/p/topic/", "projects//topics/", "project/p/topics/", "projects/p/topics", "projects/pp/tobics/", "",
                  "projects", "project", "projects/a/b/topics/", "projects/p/subscriptions/s/topics/", "projects/p/topics/t/subscriptions/", "projects/p/x/subscriptions/", "projectsé/p/topics/", "projectsé/p/subscriptions/", "projects/pé/topics/t", "projects/p/topicsé/t", "projects/p/subscriptions/é"];
     let mut n = 0u64;
+    // second pass: characters that formatting / escaping code tends to treat specially, after the canonical stems
+    let special = ['\'', '"', '\\', '\u{7}', '\n', '\u{301}', ' ', '%', '#', '?', 'a'];
+    let special_stems = ["projects/p/topics/", "projects/p/subscriptions/", "projects/", "projects/p/topics/a", "projects/p/subscriptions/a"];
+    let passes: Vec<(Vec<&str>, Vec<char>, usize)> = vec![(stems.to_vec(), alphabet.to_vec(), maxlen), (special_stems.to_vec(), special.to_vec(), maxlen.min(2))];
+    for (stems, alphabet, maxlen) in passes {
     for stem in stems {
         // all suffixes over the alphabet up to maxlen
         let mut idx = vec![0usize; 0];
@@ -541,6 +546,21 @@ fn cmd_names(maxlen: usize) -> i32 {
             }
             if idx.len() > maxlen { break; }
         }
+    }
+    }
+    // C09: the text of a message id (what Publish returns and every delivery carries) is different for different ids,
+    // also where the decimal renderings of topic number and per-topic counter could run into each other
+    {
+        let ts = [1u32, 2, 9, 10, 11, 20, 21, 99, 100, 101, 999, 1000, u32::MAX];
+        let ls = [1u32, 2, 9, 10, 11, 99, 100, 999, 1000, 99_999, 100_000, 999_999, 1_000_000, 1_000_001, 9_999_999, 10_000_001, 100_000_001, u32::MAX - 1, u32::MAX];
+        let mut seen: std::collections::HashMap<String, (u32, u32)> = std::collections::HashMap::new();
+        for t in ts { for l in ls {
+            let text = MessageId::new(t, l).to_string();
+            if let Some((t0, l0)) = seen.insert(text.clone(), (t, l)) {
+                println!("WITNESS {{\"kind\":\"name-identity\",\"property\":\"C09\",\"observed\":{:?}}}", format!("message {} of topic #{} and message {} of topic #{} are both rendered as the message id {:?}", l0, t0, l, t, text));
+                return 1;
+            }
+        } }
     }
     // identity: names that differ in project or id denote different resources (as values, as hash-map keys, in the managers)
     let parts = ["a", "b", "ab", "a-b", "é"];
@@ -818,7 +838,12 @@ async fn run_lifecycle(ops: &[LOp]) -> Result<(), Fail> {
                                 _ => {}
                             }
                         }
-                        if r.is_err() { return fail("C11", "DeleteSubscription returned an error".into()); }
+                        if r.is_err() {
+                            // refused while the topic was busy: then it must still be there and a later delete must work (C10)
+                            let again = h.delete().await;
+                            let still = sm.get_subscription(&sname(*s, false)).is_ok();
+                            return fail("C11+C10", format!("DeleteSubscription returned an error while its topic was busy; a retry returned {} and the subscription is {} afterwards", if again.is_ok() { "Ok" } else { "an error" }, if still { "still registered" } else { "gone" }));
+                        }
                         subs[*s].alive = false;
                         topics[t].subs.retain(|x| x != s);
                         for o in topics[t].subs.clone() { subs[o].backlog += published; }
@@ -1094,6 +1119,86 @@ fn cmd_tokens(log2: u32) -> i32 {
     0
 }
 
+
+// ------------------------------------------------------------------------------------------------
+// Wake-ups and bulk expiry at manager level (scripted; paused clock). C15: a parked consumer is woken while a message
+// is available, also when the consumer that was woken first went away before its pull was served. C01 / C04: a large
+// batch of leases that expires while other requests are arriving is requeued completely.
+async fn run_wakeup_cancelled(round: usize) -> Result<(), Fail> {
+    let tm = TopicManager::new();
+    let sm = SubscriptionManager::new(Default::default());
+    let topic = tm.create_topic(TopicName::new("p", "w")).map_err(|_| Fail { prop: "SETUP", what: "create".into() })?;
+    let sub = sm.create_subscription(SubscriptionInfo::new_with_defaults(SubscriptionName::new("p", "w")), Arc::clone(&topic)).await.map_err(|_| Fail { prop: "SETUP", what: "create sub".into() })?;
+    // two parked consumers: A is registered first (notify_one wakes it first), B second
+    let a = sub.messages_available();
+    tokio::pin!(a);
+    let _ = futures_poll_once(a.as_mut()).await;
+    let b = sub.messages_available();
+    tokio::pin!(b);
+    let _ = futures_poll_once(b.as_mut()).await;
+    let n = 1 + round % 3;
+    topic.publish_messages((0..n).map(|i| TopicMessage::new(Bytes::from(vec![i as u8]), None)).collect()).await.map_err(|_| Fail { prop: "SETUP", what: "publish".into() })?;
+    for _ in 0..5 { tokio::task::yield_now().await; }
+    if futures_poll_once(a.as_mut()).await.is_none() { return Err(Fail { prop: "C15+C06", what: "a parked consumer was not woken by a publish".into() }); }
+    {
+        // the woken consumer sends its pull and goes away before the answer
+        let fut = sub.pull_messages(10);
+        tokio::pin!(fut);
+        let _ = futures_poll_once(fut.as_mut()).await;
+    }
+    for _ in 0..5 { tokio::task::yield_now().await; }
+    // whatever happened to that pull, the messages become available again at the latest when the lease of the dead
+    // consumer expires; by then the other parked consumer must have been woken
+    tokio::time::advance(Duration::from_secs(11)).await;
+    settle().await;
+    let st = sub.get_stats().await.map_err(|_| Fail { prop: "SETUP", what: "stats".into() })?;
+    if st.backlog_messages_count + st.outstanding_messages_count != n { return Err(Fail { prop: "C01+C16", what: format!("{} messages published, {} held after an abandoned pull", n, st.backlog_messages_count + st.outstanding_messages_count) }); }
+    if st.backlog_messages_count > 0 && futures_poll_once(b.as_mut()).await.is_none() {
+        return Err(Fail { prop: "C15+C06", what: format!("{} message(s) are available, yet a consumer parked since before the publish was never woken (the consumer woken first had gone away before its pull was served)", st.backlog_messages_count) });
+    }
+    Ok(())
+}
+async fn run_bulk_expiry(n_batches: usize) -> Result<(), Fail> {
+    let tm = TopicManager::new();
+    let sm = SubscriptionManager::new(Default::default());
+    let topic = tm.create_topic(TopicName::new("p", "bulk")).map_err(|_| Fail { prop: "SETUP", what: "create".into() })?;
+    let sub = sm.create_subscription(SubscriptionInfo::new_with_defaults(SubscriptionName::new("p", "bulk")), Arc::clone(&topic)).await.map_err(|_| Fail { prop: "SETUP", what: "create sub".into() })?;
+    let total = n_batches * 200;
+    for b in 0..n_batches { topic.publish_messages((0..200u32).map(|i| TopicMessage::new(Bytes::from(vec![b as u8, (i >> 8) as u8, i as u8]), None)).collect()).await.map_err(|_| Fail { prop: "SETUP", what: "publish".into() })?; }
+    for round in 0..6 {
+        let mut got = 0usize;
+        for _ in 0..20 { let m = sub.pull_messages(1000).await.map_err(|_| Fail { prop: "SETUP", what: "pull".into() })?; if m.is_empty() { break; } got += m.len(); }
+        if got != total { return Err(Fail { prop: "C01+C04", what: format!("round {}: {} of {} unacknowledged messages were redelivered after their deadline", round, got, total) }); }
+        // other requests keep arriving while the whole batch expires
+        let s2 = Arc::clone(&sub);
+        let chatter = tokio::spawn(async move { for _ in 0..400 { let _ = s2.get_stats().await; tokio::task::yield_now().await; } });
+        for _ in 0..12 { tokio::time::advance(Duration::from_millis(1000)).await; for _ in 0..3 { tokio::task::yield_now().await; } }
+        let _ = chatter.await;
+        settle().await;
+        let st = sub.get_stats().await.map_err(|_| Fail { prop: "SETUP", what: "stats".into() })?;
+        if st.backlog_messages_count + st.outstanding_messages_count != total {
+            return Err(Fail { prop: "C01+C04", what: format!("round {}: {} leases expired together while other requests were arriving; the subscription now holds {} of {} messages", round, total, st.backlog_messages_count + st.outstanding_messages_count, total) });
+        }
+    }
+    Ok(())
+}
+fn cmd_wakeup(rounds: usize) -> i32 {
+    for r in 0..rounds {
+        if let Err(e) = rt().block_on(run_wakeup_cancelled(r)) {
+            println!("WITNESS {{\"kind\":\"wakeup\",{},\"scenario\":\"cancelled_consumer\",\"observed\":{:?},\"round\":{}}}", prop_json(e.prop), e.what, r);
+            return 1;
+        }
+    }
+    for nb in [1usize, 3, 4] {
+        if let Err(e) = rt().block_on(run_bulk_expiry(nb)) {
+            println!("WITNESS {{\"kind\":\"wakeup\",{},\"scenario\":\"bulk_expiry\",\"observed\":{:?},\"batches\":{}}}", prop_json(e.prop), e.what, nb);
+            return 1;
+        }
+    }
+    println!("NO-WITNESS wakeup rounds={}", rounds);
+    0
+}
+
 fn main() {
     // The rounding EPOCH of AckDeadline is a process-wide lazy static fixed by the first AckDeadline::new call. Fix it
     // at process start, before any (paused) runtime advances its virtual clock: every later runtime starts its clock at
@@ -1107,6 +1212,7 @@ fn main() {
         Some("lifecycle") => cmd_lifecycle(args[2].parse().unwrap(), args[3].parse().unwrap(), args[4].parse().unwrap()),
         Some("order") => cmd_order(args[2].parse().unwrap()),
         Some("tokens") => cmd_tokens(args[2].parse().unwrap()),
+        Some("wakeup") => cmd_wakeup(args[2].parse().unwrap()),
         Some("rpc") => rpc::run_all(),
         Some("run-lifecycle") => {
             let ops = parse_lops(&args[2]);
